@@ -1838,16 +1838,16 @@ class SessionCache(object):
         cache.is_alive = False
         provider = database.provider
         connection = cache.connection
-        if connection is None: return
         cache.connection = None
 
         try:
-            if rollback:
-                try: provider.rollback(connection, cache)
-                except:
-                    provider.drop(connection, cache)
-                    raise
-            provider.release(connection, cache)
+            if connection is not None:
+                if rollback:
+                    try: provider.rollback(connection, cache)
+                    except:
+                        provider.drop(connection, cache)
+                        raise
+                provider.release(connection, cache)
         finally:
             db_session = cache.db_session or local.db_session
             if db_session and db_session.strict:
